@@ -18,7 +18,7 @@ CHECKS = {
                 text="Exhaustive breadth-first exploration of the implementation's own state graph (two or three real "
                      "controllers, model kernel, all delivery orders, bounded duplicates/losses/timeouts/triggers) with "
                      "table, routing and status monitors on every transition, plus an exhaustive header SPI/flag "
-                     "injection sweep on representative states. State monitor on the loss / time-out scenario: once every timer has run out no IKE_SA is left waiting or DELETED; header-only IKE_SA_INIT requests (any flags / SPIs) must not touch the IKE_SAs already held."),
+                     "injection sweep on representative states. State monitor on the loss / time-out scenario: once every timer has run out no IKE_SA is left waiting or DELETED; header-only IKE_SA_INIT requests (any flags / SPIs) must not touch the IKE_SAs already held. Status queries are events of one scenario pair (ESP / AH): their place in the history is part of the key and the status is compared after every transition."),
     'C09': dict(level='model_checking', technique=MC, engine='world-explorer',
                 text="Exhaustive exploration of all interleavings of the local triggers (acquire, soft/hard expire, IKE "
                      "rekey/delete/DPD due) at both real endpoints with every delivery order (and one loss/duplicate), "
@@ -28,20 +28,20 @@ CHECKS = {
     'C10': dict(level='model_checking', technique=MC + " + exhaustive kernel-fault enumeration", engine='world-explorer',
                 text="The C09 state space with the model SAD compared with the tracked CHILD_SAs after every transition "
                      "and after a drain from every state, plus one re-execution of every transition per XFRM_MSG_NEWSA "
-                     "request with that request refused (ENOMEM, EEXIST). Also: every transition re-executed once per NEWSA / DELSA request with the netlink socket itself failing (OSError), followed by a timer sweep and a drain; and at every state of two smaller spaces what a peer other than pyikev2 may send (an authentic DELETE of any CHILD_SA on any IKE_SA held, a datagram arriving from another source address). M-del: a CHILD_SA deletion is only ever started for a reason."),
+                     "request with that request refused (ENOMEM, EEXIST). Also: every transition re-executed once per NEWSA / DELSA request with the netlink socket itself failing (OSError), followed by a timer sweep and a drain; and at every state of two smaller spaces what a peer other than pyikev2 may send (an authentic DELETE of any CHILD_SA on any IKE_SA held, a datagram arriving from another source address). M-del: a CHILD_SA deletion is only ever started for a reason. Plus m_sendfail (every transition re-executed once per datagram with that sendto() failing, timers, drain) and an ESP+AH connection in the give-up cases."),
     'C08': dict(level='model_checking', technique=MC, engine='world-explorer',
                 text="Per exchange kind (IKE_AUTH, CREATE_CHILD_SA new/rekey/IKE rekey incl. the INVALID_KE retry, "
                      "INFORMATIONAL delete child/IKE, DPD) and initiating role: every schedule of deliver / duplicate / "
                      "drop / reorder / retransmission time-out and one re-sent old datagram; window oracle on every "
                      "delivery (executed iff expected ID; previous ID -> byte-identical cached reply and no other "
                      "effect; else inert; responses only for the outstanding request) and header/ID oracle on every "
-                     "emission. What is outstanding is read off the wire, not off IkeSa.request; the first copy of the answer to the outstanding request must have an effect. IKE_SA_INIT scenarios (plain, INVALID_KE retry, COOKIE) included."),
+                     "emission. What is outstanding is read off the wire, not off IkeSa.request; the first copy of the answer to the outstanding request must have an effect. IKE_SA_INIT scenarios (plain, INVALID_KE retry, COOKIE) included. The initiator flag / SPI order of every emitted message is judged against who started the exchange that created the IKE_SA (read off the wire); IKE rekey by either end followed by an exchange on the new IKE_SA."),
     'C20': dict(level='model_checking', technique=MC + "; log monitor on every transition", engine='world-explorer',
                 text="The C09 state space (three configurations incl. refusals), every transition re-executed with each "
                      "kernel request refused (internal-error branches), and failing handshakes (wrong PSK / identity / "
                      "method, no proposal, TS unacceptable): every record at INFO or above and everything written to "
                      "stderr is searched for every secret the harness knows (PSK, SKEYSEED recomputed independently, "
-                     "SK_*, CHILD keys, DH secrets) raw, hex and repr; a verbose run proves the scanner finds each kind. Plus situations in which the daemon has something unusual to report (peer configured for another local address, PRF change across a rekey)."),
+                     "SK_*, CHILD keys, DH secrets) raw, hex and repr; a verbose run proves the scanner finds each kind. Plus situations in which the daemon has something unusual to report (peer configured for another local address, PRF change across a rekey). Plus: texts of configuration errors for pre-shared keys of 12 shapes next to something broken elsewhere, and six peer-goes-silent situations (PSK and RSA)."),
     'C13': dict(level='fault_enumeration', technique="exhaustive enumeration of loss patterns, tick sequences and crash "
                 "points over deterministic runs of the two real daemons under a virtual clock", engine='world-explorer',
                 text="Every request kind (14, incl. COOKIE / INVALID_KE retries and the delete after an IKE rekey) x every "
@@ -52,14 +52,14 @@ CHECKS = {
                      "with answering, silent and colliding peers; peer crash after every step of a reference session; the answer "
                      "arriving in the very pass in which the timer of transmission k runs out; local send failures (every "
                      "subset of the retransmissions, and lasting); second copies of earlier answers while a retried request "
-                     "is outstanding."),
+                     "is outstanding. Sockets kept busy by strangers' IKE_SA_INIT requests, foreign kernel ACQUIREs and status queries while timers are due; request kinds with a sibling IKE_SA running the same exchange."),
     'C03': dict(level='model_checking', technique=MC + "; exhaustive adversarial injection alphabet in every state", engine='world-explorer',
                 text="In every state of the one-trigger exploration (both roles, every request-outstanding state, REKEYED, "
                      "the rekeyed successor, half-open) and for every IKE_SA with keys: forged cleartext of every exchange "
                      "type x request/response x Message ID relative to the window x body, bit flips / truncations / "
                      "extension of authentic messages, the same plaintext under other keys, reflection - each injected "
                      "through main_loop on a fork; the endpoint's complete snapshot (state, counters, CHILD_SAs, timers, "
-                     "cached response, kernel SAD, netlink log) must be unchanged and nothing may be emitted. Every notification type the state machine reacts to is also injected alone in the clear (exchange x direction, expected ID)."),
+                     "cached response, kernel SAD, netlink log) must be unchanged and nothing may be emitted. Every notification type the state machine reacts to is also injected alone in the clear (exchange x direction, expected ID). Every injection of every explored state is repeated on a world whose event loops are never left (harness/continuous.py); after the whole alphabet the session must continue as it does without it."),
     'C17': dict(level='fault_enumeration', technique="exhaustive injection of a hostile corpus and of send / netlink "
                 "failures at every position of a legitimate session run through the real main_loop", engine='world-explorer',
                 text="Before every step of a legitimate two-endpoint session (initial exchanges, new CHILD, CHILD rekey, "
@@ -70,19 +70,19 @@ CHECKS = {
                      "and truncated netlink frames; sendto (gaierror / ENETUNREACH / EPERM) and netlink failures at "
                      "every call index. Oracle: main_loop is left only by the harness's stop exception, executed lines "
                      "per iteration stay under a cap, and the session completes (or, where the peer itself misbehaved, "
-                     "a fresh negotiation succeeds after the time-outs). Also: 180 orders of the legitimate operations run without hostile input, genuine CREATE_CHILD_SA requests re-protected with other SPI sizes, a blind-sender clause (input naming no SPI in use must not disturb the session even from the peer's address), and a per-iteration watchdog so that a hanging daemon is reported and cannot hang the check. The kernel corpus includes genuine soft / hard EXPIREs of every SPI the daemon holds, at every position."),
+                     "a fresh negotiation succeeds after the time-outs). Also: 180 orders of the legitimate operations run without hostile input, genuine CREATE_CHILD_SA requests re-protected with other SPI sizes, a blind-sender clause (input naming no SPI in use must not disturb the session even from the peer's address), and a per-iteration watchdog so that a hanging daemon is reported and cannot hang the check. The kernel corpus includes genuine soft / hard EXPIREs of every SPI the daemon holds, at every position. Every hostile datagram is sent twice; every corpus case is repeated with the event loops never left."),
     'C04': dict(level='exploration', technique=EX + " (wire-only observer re-deriving every key)",
                 text="Real two-endpoint exchanges for every PRF x INTEG x AES length x DH group, every CHILD suite with "
                      "and without PFS, rekey chains, nonce lengths / patterns and DH values with leading zero octets "
                      "(forced exponents); an observer that sees only the datagrams and the DH exponents re-derives "
                      "SKEYSEED, SK_*, KEYMAT and compares with IkeSa.ike_sa_keyring and the keys inside XFRM_MSG_NEWSA; "
-                     "prf+ for all output lengths; MODP primes derived from their defining formula; RFC 5903 vectors. Also crossing CREATE_CHILD_SA exchanges (with and without PFS, on a rekeyed IKE_SA) and INVALID_KE_PAYLOAD retries in IKE_SA_INIT, CREATE_CHILD_SA and IKE_SA rekey for pairs of groups."),
+                     "prf+ for all output lengths; MODP primes derived from their defining formula; RFC 5903 vectors. Also crossing CREATE_CHILD_SA exchanges (with and without PFS, on a rekeyed IKE_SA) and INVALID_KE_PAYLOAD retries in IKE_SA_INIT, CREATE_CHILD_SA and IKE_SA rekey for pairs of groups. Families refused-first (CHILD_SAs after the CHILD_SA of the initial exchanges was refused) and late-child-on-old (CREATE_CHILD_SA arriving on a replaced IKE_SA)."),
     'C11': dict(level='exploration', technique=EX,
                 text="Complete products of local policies x peer proposals (incl. foreign ids, key-length variants, "
                      "two-proposal payloads) for Proposal.intersection / is_subset / _select_best_sa_proposal against a "
                      "declarative reference; 512+ real handshakes over all pairs of ENCR/DH preference lists at IKE and "
                      "CHILD level incl. NO_PROPOSAL_CHOSEN and the INVALID_KE_PAYLOAD round; 190 one-step rewrites of "
-                     "authentic responses by a tampering responder. The end-to-end pairs continue through a history (two rekeys, negotiations started by the other side, IKE_SA rekey, one more CHILD_SA), each judged against the configured policies, with the clause that what is offered is the configured policy; PFS on one side only; an initiator that is not pyikev2 (several proposals per request with decoys before / after the genuine one) and responses with reordered transforms."),
+                     "authentic responses by a tampering responder. The end-to-end pairs continue through a history (two rekeys, negotiations started by the other side, IKE_SA rekey, one more CHILD_SA), each judged against the configured policies, with the clause that what is offered is the configured policy; PFS on one side only; an initiator that is not pyikev2 (several proposals per request with decoys before / after the genuine one) and responses with reordered transforms. Plus: proposals without ESN transform, the next offer after a tampered response, the CHILD_SA on an IKE_SA that lost all its CHILD_SAs, loaded policies unchanged after every foreign / tampered exchange."),
     'C14': dict(level='exploration', technique=EX + " (decoder compiled against the kernel UAPI headers)",
                 text="Every netlink request the Xfrm API emits over the full product of the selector region and "
                      "pairwise-complete crosses with the other regions is decoded by a C program using <linux/xfrm.h> "
@@ -98,7 +98,7 @@ CHECKS = {
                 text="64 valid base dictionaries x every single deviation (quick) / every pair (thorough) of missing "
                      "keys and ill-typed / out-of-range / unknown values at connection, auth and protect-entry level: "
                      "Configuration() either raises ConfigurationError or loads; well-typed loads are compared field by "
-                     "field with an independent reading (ref/confread.py)."),
+                     "field with an independent reading (ref/confread.py). Plus: the Configuration object compared with the independent reading after every step of a session with all event kinds, look-up hits and misses on every loaded table (mixed families), non-RSA PEM keys, kinds of local addresses (link-local, loopback, unique-local)."),
     'C06': dict(level='exploration', technique=EX + "; termination decided by an exact executed-event budget (sys.monitoring), not a timeout",
                 text="Complete enumeration of: every truncation and 5 mutations per octet of 31 authentic messages of all "
                      "exchange kinds (on the wire and on the plaintext, re-encrypted and re-MACed), every length / count "
@@ -115,7 +115,7 @@ CHECKS = {
                      "DH with both sides and relaying or forging AUTH. Observer (own codec and key schedule): an endpoint "
                      "that ends up established or installs an SA accepted an AUTH that verifies under its configured "
                      "credential and identity over the peer's IKE_SA_INIT message as it saw it, its own nonce and "
-                     "prf(SK_p, ID'), and what it saw means what the honest peer sent. Plus an honest initiator of another make offering two IKE proposals whose SA payload is rewritten on the path (6 rewritings), and two connections of one daemon towards one remote address on two local addresses set up one after the other with the right / the other connection's credentials."),
+                     "prf(SK_p, ID'), and what it saw means what the honest peer sent. Plus an honest initiator of another make offering two IKE proposals whose SA payload is rewritten on the path (6 rewritings), and two connections of one daemon towards one remote address on two local addresses set up one after the other with the right / the other connection's credentials. Also: AUTH data of other lengths than the PRF output, an initiator that starts over with the same SPI."),
     'C15': dict(level='model_checking', technique="exhaustive enumeration of configurations, ACQUIRE flows and restart points "
                 "on real controllers over the model kernel", engine='world-explorer',
                 text="90 configurations (1-2 connections incl. two local addresses with one peer, 1-2 protect entries, "
@@ -123,13 +123,13 @@ CHECKS = {
                      "start-up == exactly out/in/fwd per entry, SAD empty, both empty after close(); ACQUIRE for every "
                      "outbound policy with flows at the corners of the entry, without / with an established IKE_SA / with "
                      "a sibling connection's IKE_SA: right peer, IKE_SA re-used, entry's proposal / mode / selectors / "
-                     "lifetime installed; unknown index ignored; restart of either daemon after every step of a session; an ACQUIRE in the pass after the IKE_SA with that peer was given up; entries differing in one selector dimension; an entry added / removed between two incarnations."),
+                     "lifetime installed; unknown index ignored; restart of either daemon after every step of a session; an ACQUIRE in the pass after the IKE_SA with that peer was given up; entries differing in one selector dimension; an entry added / removed between two incarnations. ACQUIRE after a send failure on a childless IKE_SA and after a CHILD_SA rekey by either end; shutdown with a request outstanding."),
     'C18': dict(level='exploration', technique=EX,
                 text="Responder with 0..threshold+3 half-open IKE_SAs (threshold measured, not assumed) x request variants: "
                      "no cookie, exact cookie, every single-octet corruption, truncated / extended / empty, the exact cookie "
                      "with another SPI / nonce / (configured) source address, cookie lists; COOKIE-only reply, zero "
                      "DiffieHellman.from_group calls and unchanged table without the exact cookie. Initiator: COOKIE reply "
-                     "once / twice / after the real reply, retry byte-compared, session completes with mirror SAs."),
+                     "once / twice / after the real reply, retry byte-compared, session completes with mirror SAs. Plus several IKE_SA_INIT requests read in one pass of the loop (world event `together`), half-open IKE_SAs of any age, the cookie kept across an INVALID_KE_PAYLOAD retry."),
     'C01': dict(level='model_checking', technique="exhaustive enumeration of configuration pairs and negotiation histories "
                 "between two real endpoints; the two model SADs are compared after every negotiation", engine='world-explorer',
                 text="IKE suites, CHILD suites x modes (ESP/AH, with and without PFS), IPv4/IPv6 x PSK/RSA x initiator, all "
@@ -143,7 +143,7 @@ CHECKS = {
                 text="Full header product x payload lists up to length 2 (thorough 3) over 33 payload instances, in clear "
                      "and inside SK: to_bytes == independent encoder byte for byte, parse maps back, idempotence of "
                      "serialise-after-parse on every accepted mutated string, unknown non-critical skipped / critical "
-                     "rejected / chain-end edits rejected, to_dict JSON-serialisable and lossless."),
+                     "rejected / chain-end edits rejected, to_dict JSON-serialisable and lossless. One DEBUG dump per message also through COOKIE / INVALID_KE_PAYLOAD retries, retransmissions and rekeys."),
     'C07': dict(level='exploration', technique=EX,
                 text="Every plaintext length modulo the block size x AES lengths x integrity algorithms x IVs dissected "
                      "independently (padding, Pad Length, ICV coverage and truncation); every octet x every bit, every "
